@@ -59,6 +59,69 @@ fn printed(outs: &[Out]) -> String {
     outs.iter().filter_map(|o| if let Out::Print(p) = o { Some(p.as_str()) } else { None }).collect()
 }
 
+/// A fresh interpreter holding the numbered lines of `ops`, the variables, arrays and generator state of `snap`.
+/// None when a value cannot be written as a literal (NaN, infinities, strings containing a quote).
+fn fresh_twin(ops: &[Op], snap: &Snapshot) -> Option<Session> {
+    let mut s = Session::new();
+    s.keep_log = false;
+    s.check_invariants = false;
+    for op in ops {
+        if let Op::Line(l) = op {
+            if abasic_core::verif_hooks::parse_line_number(l).is_some() {
+                s.call(Op::Line(l.clone()));
+            }
+        }
+    }
+    // a reply handed over before the break and not consumed yet stays with the interpreter (CONT would use it);
+    // a fresh interpreter cannot be put into that state from outside, so such cases are not compared
+    if snap.pending_input.is_some() {
+        return None;
+    }
+    let literal = |kind: char, text: &str| -> Option<String> {
+        if kind == 'S' {
+            if text.contains('"') || text.contains('\n') || text.contains('\r') { None } else { Some(format!("\"{}\"", text)) }
+        } else {
+            let v: f64 = text.parse().ok()?;
+            if !v.is_finite() {
+                return None;
+            }
+            let shown = format!("{}", v.abs());
+            Some(if v.is_sign_negative() { format!("-{}", shown) } else { shown })
+        }
+    };
+    for (name, kind, text) in &snap.variables {
+        let r = s.run_line(&format!("{} = {}", name, literal(*kind, text)?), 5);
+        if !r.res.is_ok() {
+            return None;
+        }
+    }
+    for a in &snap.arrays {
+        let dims: Vec<String> = a.dimensions.iter().map(|d| (d - 1).to_string()).collect();
+        if !s.run_line(&format!("DIM {}({})", a.name, dims.join(",")), 5).res.is_ok() {
+            return None;
+        }
+        for (lin, text) in &a.non_default {
+            let mut rest = *lin;
+            let mut idx = vec![];
+            for d in &a.dimensions {
+                idx.push((rest % d).to_string());
+                rest /= d;
+            }
+            if !s.run_line(&format!("{}({}) = {}", a.name, idx.join(","), literal(a.kind, text)?), 5).res.is_ok() {
+                return None;
+            }
+        }
+    }
+    s.settle();
+    s.call(Op::Randomize(snap.rng_state));
+    // the twin must really be in the same data state (and hold no runtime reference)
+    let t = s.snapshot();
+    if data_view(&t) != data_view(snap) || t.rng_state != snap.rng_state {
+        return None;
+    }
+    Some(s)
+}
+
 /// A program of one line that, when suspended, holds a breakpoint, an open loop, a function and a DATA cursor.
 fn one_line_program(rng: &mut crate::util::Rng) -> prog::Generated {
     use crate::model::ast::*;
@@ -369,8 +432,25 @@ fn run_case(ctx: &Ctx, index: u64, rep: &mut Report) {
     if let Some(l) = s1.map_lines.first().copied() {
         let target = *rng.pick(&s1.map_lines);
         for t in [l, target] {
-            // must simply run (any error value is fine); panics and stale references are caught by the tripwires
-            if !probe(&format!("GOTO {}", t), &|r: &Res, _p: &str| if matches!(r, Res::Panic(_)) { Some("panicked".into()) } else { None }, rep) {
+            // after the edit the interpreter must be indistinguishable from a fresh one that holds the edited program,
+            // the same variables and arrays and the same generator state: entering at line t behaves the same on both
+            let twin = fresh_twin(&full, &s1);
+            let want = twin.map(|mut tw| {
+                let o = tw.run_line(&format!("GOTO {}", t), 250);
+                (o.res.outcome(), o.printed())
+            });
+            if want.is_some() {
+                rep.count("goto_compared_with_fresh_twin");
+            }
+            if !probe(&format!("GOTO {}", t), &move |r: &Res, p: &str| {
+                if matches!(r, Res::Panic(_)) {
+                    return Some("panicked".into());
+                }
+                match &want {
+                    Some((wk, wp)) if *wk != r.outcome() || wp != p => Some(format!("a fresh interpreter holding the edited program and the same variables gives {:?} {:?}", wk, wp)),
+                    _ => None,
+                }
+            }, rep) {
                 return;
             }
         }
@@ -387,12 +467,13 @@ fn run_case(ctx: &Ctx, index: u64, rep: &mut Report) {
 
 fn finalize(_tier: Tier, rep: &mut Report) -> Finalize {
     Finalize {
-        rule: "A case is a generated program driven to a suspension point (end, error, STOP, host break at a random turn, break while awaiting input), one edit (add, replace or delete — targeted at the line holding the breakpoint, the open FOR, the GOSUB return point, the DEF or the current DATA when there is one — or an untokenizable edit), the snapshot oracle, and the probes CONT / RETURN / NEXT v / PRINT FNx(1) / READ / GOTO n / GOSUB n (a replaced or added line must run in its new form), each on its own replay of the history. \
+        rule: "A case is a generated program driven to a suspension point (end, error, STOP, host break at a random turn, break while awaiting input), one edit (add, replace or delete — targeted at the line holding the breakpoint, the open FOR, the GOSUB return point, the DEF or the current DATA when there is one — or an untokenizable edit), the snapshot oracle, and the probes CONT / RETURN / NEXT v / PRINT FNx(1) / READ / GOTO n / GOSUB n (a replaced or added line must run in its new form; GOTO into the program behaves exactly as on a fresh interpreter rebuilt from the edited lines, the same variables, arrays and generator state), each on its own replay of the history. \
                Non-trivial: at the edit the interpreter held at least one of (breakpoint, GOSUB frame, open loop, defined function, partially read DATA), the edit succeeded and >= 3 probes ran. Distinct by hash of program + edit + suspension turn.".into(),
         floors: vec![
             ("probes".into(), 30_000),
             ("replaced_line_entered".into(), 3_000),
             ("edit.deleted_the_only_line".into(), 300),
+            ("goto_compared_with_fresh_twin".into(), 20_000),
             ("rejected_edits_checked".into(), 500),
             ("had.breakpoint".into(), 2_000),
             ("had.gosub-frame".into(), 300),
